@@ -258,7 +258,100 @@ Definition check_mt (c : mt_case) : bool :=
   && forallb (fun t => match t_pc t with PCheck => true | _ => false end) (g_thr st)
   && negb (g_tie st).
 
+(* ---------- a registration racing with posts to the not-yet-registered destination ----------
+   One late destination c, one message type, the queue as the list of ids in put order (with the
+   post lock that is the handling order, see P_MessagingMT).  Micro-steps:
+   post_msg(dest = c):       DLook  discovery.computation_agent(c): known -> DPut, else
+                             DSub   discovery.subscribe_computation(c, cb, one_shot)   (one more cb)
+                             DApp   self._failed.append(...)
+   Discovery.register_computation(c, me) in the registering thread:
+                             RSet   is_change = (table[c] != me); table[c] = me
+                             RFire  for cb in _computation_cbs[c] (the live list): snapshot _failed[:]
+                             RReplay  per snapshot entry: post_msg (c is known: put), then _failed.remove
+                             RClear remove the one-shot callbacks *)
+Inductive dpc := DLook | DSub | DApp | DPut.
+Record dth := mkD { d_prog : list Z; d_pc : dpc }.
+Inductive rpc := RSet | RFire | RReplay | RClear | RDone.
+Record rst := mkR {
+  r_known : bool; r_cbs : nat; r_failed : list Z; r_queue : list Z;
+  r_thr : list dth;
+  r_pc : rpc; r_j : nat; r_snap : list Z; r_rm : option Z
+}.
+Inductive rchoice := RCReg | RCPost (i : nat).
+
+Fixpoint zremove_first (x : Z) (l : list Z) : list Z :=
+  match l with [] => [] | y :: r => if x =? y then r else y :: zremove_first x r end.
+
+Definition rinit (progs : list (list Z)) : rst :=
+  mkR false 0 [] [] (map (fun p => mkD p DLook) progs) RSet 0 [] None.
+
+Definition reg_step (s : rst) : rst :=
+  match r_pc s with
+  | RSet => if r_known s
+            then mkR true (r_cbs s) (r_failed s) (r_queue s) (r_thr s) RDone 0 [] None
+            else mkR true (r_cbs s) (r_failed s) (r_queue s) (r_thr s) RFire 0 [] None
+  | RFire => if (r_j s <? r_cbs s)%nat
+             then mkR (r_known s) (r_cbs s) (r_failed s) (r_queue s) (r_thr s) RReplay (r_j s) (r_failed s) None
+             else mkR (r_known s) (r_cbs s) (r_failed s) (r_queue s) (r_thr s) RClear (r_j s) [] None
+  | RReplay =>
+      match r_rm s with
+      | Some f => mkR (r_known s) (r_cbs s) (zremove_first f (r_failed s)) (r_queue s) (r_thr s)
+                      RReplay (r_j s) (r_snap s) None
+      | None =>
+          match r_snap s with
+          | [] => mkR (r_known s) (r_cbs s) (r_failed s) (r_queue s) (r_thr s) RFire (S (r_j s)) [] None
+          | f :: rest => mkR (r_known s) (r_cbs s) (r_failed s) (r_queue s ++ [f]) (r_thr s)
+                             RReplay (r_j s) rest (Some f)
+          end
+      end
+  | RClear => mkR (r_known s) 0 (r_failed s) (r_queue s) (r_thr s) RDone (r_j s) [] None
+  | RDone => s
+  end.
+
+Definition set_dthr (s : rst) (i : nat) (t : dth) : rst :=
+  mkR (r_known s) (r_cbs s) (r_failed s) (r_queue s) (upd i t (r_thr s)) (r_pc s) (r_j s) (r_snap s) (r_rm s).
+
+Definition dposter_step (s : rst) (i : nat) (t : dth) : rst :=
+  match d_prog t with
+  | [] => s
+  | m :: rest =>
+      match d_pc t with
+      | DLook => set_dthr s i (mkD (d_prog t) (if r_known s then DPut else DSub))
+      | DSub => let s1 := set_dthr s i (mkD (d_prog t) DApp) in
+                mkR (r_known s1) (S (r_cbs s1)) (r_failed s1) (r_queue s1) (r_thr s1) (r_pc s1) (r_j s1)
+                    (r_snap s1) (r_rm s1)
+      | DApp => let s1 := set_dthr s i (mkD rest DLook) in
+                mkR (r_known s1) (r_cbs s1) (r_failed s1 ++ [m]) (r_queue s1) (r_thr s1) (r_pc s1) (r_j s1)
+                    (r_snap s1) (r_rm s1)
+      | DPut => let s1 := set_dthr s i (mkD rest DLook) in
+                mkR (r_known s1) (r_cbs s1) (r_failed s1) (r_queue s1 ++ [m]) (r_thr s1) (r_pc s1) (r_j s1)
+                    (r_snap s1) (r_rm s1)
+      end
+  end.
+
+Definition rstep (s : rst) (ch : rchoice) : rst :=
+  match ch with
+  | RCReg => reg_step s
+  | RCPost i => match nth_error (r_thr s) i with Some t => dposter_step s i t | None => s end
+  end.
+Definition rrun (progs : list (list Z)) (sched : list rchoice) : rst := fold_left rstep sched (rinit progs).
+
+(* everybody is through: the registration is complete and every poster finished its program *)
+Definition rfinished (s : rst) : bool :=
+  match r_pc s with RDone => true | _ => false end
+  && forallb (fun t => match d_prog t with [] => true | _ => false end) (r_thr s).
+
+Record reg_case := mkRC {
+  rc_progs : list (list Z); rc_sched : list rchoice;
+  rc_failed : list Z;        (* observed: ids still in _failed at the end *)
+  rc_handled : list Z        (* observed: ids in the order the handler saw them *)
+}.
+Definition check_reg (c : reg_case) : bool :=
+  let s := rrun (rc_progs c) (rc_sched c) in
+  rfinished s && r_known s && list_eqb Z.eqb (r_failed s) (rc_failed c)
+  && list_eqb Z.eqb (r_queue s) (rc_handled c).
+
 (* the C18 correspondence mixes the sequential / queue-log cases of M_Messaging with these *)
-Inductive case := COld (c : M_Messaging.case) | CMT (c : mt_case).
+Inductive case := COld (c : M_Messaging.case) | CMT (c : mt_case) | CReg (c : reg_case).
 Definition check_case (c : case) : bool :=
-  match c with COld o => M_Messaging.check_case o | CMT m => check_mt m end.
+  match c with COld o => M_Messaging.check_case o | CMT m => check_mt m | CReg r => check_reg r end.
